@@ -13,7 +13,7 @@ The specification side is stated with inductive predicates that do not mention t
 * `status_401`, `status_401_iff`, `reason_of_failure`, `reason_of_rpc`, `reason_closed_set` — otherwise a
   rejection ⇒ 401, reason from the closed set, `no-store`, the configured WWW-Authenticate;
 * `status_500`, `status_500_iff` — anything else ⇒ 500;
-* `chain_first_success`, `chain_stops`, `chain_exhausted`, `chain_cases`, `chain_unavailable_503`,
+* `chain_first_success`, `chain_stops`, `error_wins`, `chain_exhausted`, `chain_cases`, `chain_unavailable_503`,
   `chain_exhausted_401`, `chain_success_passes` — the chain clause, for chains of any length.
 -/
 namespace Vgi.Props.C23
@@ -296,17 +296,20 @@ theorem reason_closed_set (www : Bytes) (e : AErr) (h401 : (respond www e).statu
 
 /-! ## C23, second sentence: `ChainAuthenticate` -/
 
-/-- the outcome the chain skips: a directly returned `*RpcError` of type ValueError -/
-def Declines (o : Outcome) : Prop := ∃ m, o = .err (.rpc tyValueError m)
+/-- the outcome the chain skips: the error component is a directly returned `*RpcError` of type
+ValueError (whether or not a context came with it) -/
+def Declines (o : Outcome) : Prop := ∃ m, o.errOf = some (.rpc tyValueError m)
 
 theorem declines_step (i : Nat) (o : Outcome) (rest : List Outcome) (h : Declines o) :
     chainFrom i (o :: rest) = ((chainFrom (i + 1) rest).1, (chainFrom (i + 1) rest).2 + 1) := by
-  obtain ⟨m, rfl⟩ := h
-  simp [chainFrom, firstUnavailable, isDirectValueError]
+  obtain ⟨m, hm⟩ := h
+  simp [chainFrom, hm, firstUnavailable, isDirectValueError]
 
-theorem not_declines_stops (i : Nat) (e : AErr) (rest : List Outcome) (h : ¬ Declines (.err e)) :
-    chainFrom i (.err e :: rest) = (.errAt i e, 1) := by
+theorem not_declines_stops (i : Nat) (o : Outcome) (e : AErr) (rest : List Outcome)
+    (ho : o.errOf = some e) (h : ¬ Declines o) :
+    chainFrom i (o :: rest) = (.errAt i e, 1) := by
   unfold chainFrom
+  simp only [ho]
   split
   · rfl
   · split
@@ -316,7 +319,7 @@ theorem not_declines_stops (i : Nat) (e : AErr) (rest : List Outcome) (h : ¬ De
       cases e with
       | rpc ty m =>
         simp only [isDirectValueError, beq_iff_eq] at hve
-        exact ⟨m, by rw [hve]⟩
+        exact ⟨m, by rw [ho, hve]⟩
       | _ => simp [isDirectValueError] at hve
     · rfl
 
@@ -341,19 +344,33 @@ theorem chain_first_success (pre post : List Outcome) (h : ∀ o ∈ pre, Declin
     chain (pre ++ .ok :: post) = (.okAt pre.length, pre.length + 1) := by
   unfold chain
   rw [chainFrom_prefix pre 0 _ h]
-  simp [chainFrom]
+  simp [chainFrom, Outcome.errOf]
   omega
 
 /-- **chain_stops**: it stops at the first error that is not a directly returned ValueError —
 an `AuthUnavailableError` (wrapped to any depth), a PermissionError, a *wrapped* ValueError, an
 AuthFailure, anything — returns that very error, and calls nobody after it. -/
-theorem chain_stops (pre post : List Outcome) (e : AErr) (h : ∀ o ∈ pre, Declines o)
-    (he : ¬ Declines (.err e)) :
-    chain (pre ++ .err e :: post) = (.errAt pre.length e, pre.length + 1) := by
+theorem chain_stops (pre post : List Outcome) (o : Outcome) (e : AErr) (h : ∀ o ∈ pre, Declines o)
+    (ho : o.errOf = some e) (he : ¬ Declines o) :
+    chain (pre ++ o :: post) = (.errAt pre.length e, pre.length + 1) := by
   unfold chain
-  rw [chainFrom_prefix pre 0 _ h, not_declines_stops _ e post he]
+  rw [chainFrom_prefix pre 0 _ h, not_declines_stops _ o e post ho he]
   simp
   omega
+
+/-- **error_wins**: a link that hands back a context TOGETHER with an error is treated exactly
+like one that returns the error alone — the context can never turn an error into a success. -/
+theorem error_wins (pre post : List Outcome) (e : AErr) :
+    chain (pre ++ .ctxErr e :: post) = chain (pre ++ .err e :: post) := by
+  unfold chain
+  generalize 0 = i
+  induction pre generalizing i with
+  | nil => simp [chainFrom, Outcome.errOf]
+  | cons o pre ih =>
+    simp only [List.cons_append, chainFrom]
+    cases o.errOf with
+    | none => rfl
+    | some e' => simp only [ih (i + 1)]
 
 /-- **chain_exhausted**: only when every authenticator declined does it give its own ValueError,
 after calling all of them. -/
@@ -369,38 +386,40 @@ theorem chain_exhausted (os : List Outcome) (h : ∀ o ∈ os, Declines o) :
 theorem chain_cases (os : List Outcome) :
     (∀ o ∈ os, Declines o) ∨
     (∃ pre post, os = pre ++ .ok :: post ∧ ∀ o ∈ pre, Declines o) ∨
-    (∃ pre e post, os = pre ++ .err e :: post ∧ (∀ o ∈ pre, Declines o) ∧ ¬ Declines (.err e)) := by
+    (∃ pre o e post, os = pre ++ o :: post ∧ (∀ o ∈ pre, Declines o) ∧ o.errOf = some e ∧ ¬ Declines o) := by
   induction os with
   | nil => exact .inl (by simp)
   | cons o os ih =>
-    cases o with
-    | ok => exact .inr (.inl ⟨[], os, rfl, by simp⟩)
-    | err e =>
-      by_cases hd : Declines (.err e)
-      · rcases ih with h | ⟨pre, post, rfl, h⟩ | ⟨pre, e', post, rfl, h, he⟩
-        · exact .inl (by intro o ho; simp at ho; rcases ho with rfl | ho; exact hd; exact h o ho)
-        · exact .inr (.inl ⟨.err e :: pre, post, rfl, by
-            intro o ho; simp at ho; rcases ho with rfl | ho; exact hd; exact h o ho⟩)
-        · exact .inr (.inr ⟨.err e :: pre, e', post, rfl, by
-            intro o ho; simp at ho; rcases ho with rfl | ho; exact hd; exact h o ho, he⟩)
-      · exact .inr (.inr ⟨[], e, os, rfl, by simp, hd⟩)
+    by_cases hd : Declines o
+    · rcases ih with h | ⟨pre, post, rfl, h⟩ | ⟨pre, o', e', post, rfl, h, ho, he⟩
+      · exact .inl (by intro x hx; simp at hx; rcases hx with rfl | hx; exact hd; exact h x hx)
+      · exact .inr (.inl ⟨o :: pre, post, rfl, by
+          intro x hx; simp at hx; rcases hx with rfl | hx; exact hd; exact h x hx⟩)
+      · exact .inr (.inr ⟨o :: pre, o', e', post, rfl, by
+          intro x hx; simp at hx; rcases hx with rfl | hx; exact hd; exact h x hx, ho, he⟩)
+    · cases o with
+      | ok => exact .inr (.inl ⟨[], os, rfl, by simp⟩)
+      | err e => exact .inr (.inr ⟨[], .err e, e, os, rfl, by simp, rfl, hd⟩)
+      | ctxErr e => exact .inr (.inr ⟨[], .ctxErr e, e, os, rfl, by simp, rfl, hd⟩)
 
 /-- an unavailable authenticator is never read as "declined": anything with an
 `AuthUnavailableError` in its tree stops the chain -/
-theorem unavailable_not_declines (e : AErr) (n : Int) (h : HasU e n) : ¬ Declines (.err e) := by
+theorem unavailable_not_declines (o : Outcome) (e : AErr) (n : Int) (ho : o.errOf = some e) (h : HasU e n) :
+    ¬ Declines o := by
   rintro ⟨m, hm⟩
+  rw [ho] at hm
   injection hm with hm
   subst hm
   cases h
 
 /-- **chain_unavailable_503**: unavailability anywhere inside the first non-declining outcome
 surfaces as a 503 with its Retry-After, never as the 401 from the end of the chain. -/
-theorem chain_unavailable_503 (www : Bytes) (pre post : List Outcome) (e : AErr) (n : Int)
-    (h : ∀ o ∈ pre, Declines o) (hu : FirstU e n) :
-    serveChain www (pre ++ .err e :: post) =
+theorem chain_unavailable_503 (www : Bytes) (pre post : List Outcome) (o : Outcome) (e : AErr) (n : Int)
+    (h : ∀ o ∈ pre, Declines o) (ho : o.errOf = some e) (hu : FirstU e n) :
+    serveChain www (pre ++ o :: post) =
       some { status := 503, retryAfter := some (if n > 0 then n else 5) } := by
   unfold serveChain
-  rw [chain_stops pre post e h (unavailable_not_declines e n hu.hasU)]
+  rw [chain_stops pre post o e h ho (unavailable_not_declines o e n ho hu.hasU)]
   simp only [chainError, Option.map_some]
   rw [status_503 www e n hu]
 
@@ -441,6 +460,29 @@ example : respond [] (.authFailure [] []) =
 example : respond exWWW (.wrap exVE) = { status := 500 } := by decide
 example : Rejection (.wrap (.wrap (.authFailure reasonProxyRequired [1]))) := .inl ⟨_, _, .wrap (.wrap (.here _ _))⟩
 example : ¬ Declines (.err (.wrap exVE)) := by rintro ⟨m, h⟩; cases h
+/-- a context handed back together with a wrapped unavailability / a PermissionError does not make
+the link a success; together with a direct ValueError the chain still moves on -/
+example : serveChain exWWW [.err exVE, .ctxErr (.wrap (.unavailable 7)), .ok] = some { status := 503, retryAfter := some 7 } := by decide
+example : serveChain exWWW [.ctxErr (.rpc tyPermissionError []), .ok] =
+    some { status := 401, reason := some reasonInsufficientScope, cacheControl := some noStore, wwwAuth := some exWWW } := by decide
+example : (chain [.ctxErr exVE, .ok]).2 = 2 ∧ serveChain exWWW [.ctxErr exVE, .ok] = none := by decide
+/-- depth is unbounded: an AuthFailure under 100 wraps is still a rejection -/
+def wraps : Nat → AErr → AErr
+  | 0, e => e
+  | n + 1, e => .wrap (wraps n e)
+theorem wraps_inChain (n : Nat) (r d : Bytes) : InUnwrapChain (wraps n (.authFailure r d)) r d := by
+  induction n with
+  | zero => exact .here _ _
+  | succ n ih => exact .wrap ih
+theorem wraps_hasU (n : Nat) (k : Int) : FirstU (wraps n (.unavailable k)) k := by
+  induction n with
+  | zero => exact .here _
+  | succ n ih => exact .wrap ih
+example : (respond exWWW (wraps 100 (.authFailure reasonExpiredCredential []))).status = 401 := by
+  rw [status_401_iff]
+  refine ⟨?_, .inl ⟨_, _, wraps_inChain 100 _ _⟩⟩
+  rw [← firstUnavailable_none_iff]
+  decide
 example : Declines (.err exVE) := ⟨_, rfl⟩
 example : (chain [.err exVE, .err exVE, .ok, .err .other]).2 = 3 := by decide
 example : (chain [.err exVE, .err (.wrap (.unavailable 9)), .ok]).2 = 2 := by decide
